@@ -200,6 +200,56 @@ def run_shape(case):
   return R(None, nstream > 0, (nstream, len(exp)))
 
 
+# ---------------------------------- stream coefficients on sparse high delays
+HIGH = [0, 1, 2, 9, 10, 11, 12]
+
+
+def gen_sparse(run):
+  """Two or three stream coefficients on delays of one and two digits."""
+  for side in ("num", "den", "both"):
+    for d1 in HIGH:
+      for d2 in HIGH:
+        if d2 <= d1:
+          continue
+        for kind in ("F5", "P"):
+          if side != "num" and max(d1, 1) == d2:
+            continue
+          yield (side, d1, d2, kind)
+
+
+def run_sparse(case):
+  side, d1, d2, kind = case
+  N = 30
+  x = syms("x", N)
+  T = N + 2
+  sources = []
+  def stream(p, salt):
+    vals = [F(PR[p % 6] + salt + (n if kind == "F5" else n % 3)) for n in range(N if kind == "P" else 20)]
+    src = CountingSource([Q(v) for v in vals], name="s%d" % p)
+    sources.append(src)
+    return Stream(src), vals + [None] * (T - len(vals))
+  num, den, rnum, rden = {}, {0: 1}, {}, {0: [F(1)] * T}
+  if side in ("num", "both"):
+    for p, d in enumerate((d1, d2)):
+      st, vals = stream(p, 0)
+      num[d], rnum[d] = st, vals
+  else:
+    num[0], rnum[0] = 1, [F(1)] * T
+  if side in ("den", "both"):
+    for p, d in enumerate((max(d1, 1), d2)):
+      st, vals = stream(p + 2, 20)
+      den[d], rden[d] = st, vals
+  try:
+    filt = ZFilter(num, den)
+  except Exception as exc:
+    return bad("tv:build:" + type(exc).__name__, "building the filter raised", None, str(exc)[:200])
+  exp = tv_apply(rnum, rden, x)
+  v = check_run(filt, sources, exp, x, "tv-sparse", True)
+  if v is not None:
+    return v
+  return R(None, True, (side, d2 >= 10))
+
+
 # --------------------------------------------------------------- algebra
 # pool of stream-bearing (and constant) filters: kinds for [b0,b1,b2,a0,a1,a2]
 POOL = [
@@ -363,6 +413,7 @@ def run_conststream(case):
 KINDS = OrderedDict([
   ("shapes", Kind(gen_shapes, run_shape, chunk=300,
                   rule="coefficient kind placements x construction route; non-trivial: >=1 Stream coefficient")),
+  ("sparse", Kind(gen_sparse, run_sparse, chunk=8, rule="stream coefficients on delays 0..2 and 9..12, 30 input samples")),
   ("algebra", Kind(gen_algebra, run_algebra, chunk=8, rule="(op, f, g) over the pool of stream-bearing filters")),
   ("conststream", Kind(gen_conststream, run_conststream, chunk=60,
                        rule="every subset of coefficients replaced by constant streams")),
